@@ -13,4 +13,14 @@ theorem globals_as_modelled : Gen.State.globals = Spec.State.globals := by rfl
 /-- the stateful types have the transcribed members and no others -/
 theorem fields_as_modelled : Gen.State.fields = Spec.State.fields := by rfl
 
+/-- the process environment and the FRB compatibility mode are consulted exactly where the models branch on them: the
+two relaxations of addendum A, the one of addendum C, the two of the image view detail, the one of return addendum A, the
+IBM1047 substitution of the reader, and the buffer size of the server -/
+theorem envReads_as_modelled : Gen.State.envReads = Spec.State.envReads := by rfl
+
+/-- every function of the server packages (handlers, their helpers, the repository, the responder) makes the transcribed
+calls under the transcribed conditions and answers with the transcribed status codes: the programs of Api.lean
+(`hGet`, `hDelete`, ...) were written against exactly this skeleton -/
+theorem skeletons_as_modelled : Gen.State.skeletons = Spec.State.skeletons := by rfl
+
 end Icl.StateCensus
